@@ -20,3 +20,33 @@ package cff
 //@   requires len(data) > 0
 //@   ensures forall i int :: 0 <= i && i < len(data) ==> data[(i + j%len(data) + len(data)) % len(data)] == old(data[i])
 //@   modifies data[*]
+
+// makeNames (CID-keyed -> simple conversion): afterwards every glyph has a
+// non-empty name, names are pairwise distinct and glyph 0 is ".notdef".
+//@ pred glyphsOK(o *Outlines) = o != nil && len(o.Glyphs) >= 1 && (forall i int :: 0 <= i && i < len(o.Glyphs) ==> o.Glyphs[i] != nil) && (forall i int :: forall j int :: 0 <= i && i < j && j < len(o.Glyphs) ==> o.Glyphs[i] != o.Glyphs[j])
+//@ pred namesUsed(o *Outlines, used map[string]bool, k int) = forall i int :: 0 <= i && i < k ==> (o.Glyphs[i].Name != "" ==> used[o.Glyphs[i].Name])
+//@ pred namesDistinct(o *Outlines, k int) = forall i int :: forall j int :: 0 <= i && i < j && j < k ==> (o.Glyphs[i].Name != "" && o.Glyphs[j].Name != "" ==> o.Glyphs[i].Name != o.Glyphs[j].Name)
+
+//@ func (o *Outlines) makeNames(glyphText map[glyph.ID]string)   props: C20
+//@   requires glyphsOK(o)
+//@   ensures forall i int :: 0 <= i && i < len(o.Glyphs) ==> o.Glyphs[i].Name != ""
+//@   ensures namesDistinct(o, len(o.Glyphs))
+//@   ensures o.Glyphs[0].Name == ".notdef"
+//@   modifies all(Glyph)
+//@   loop 0
+//@     invariant glyphsOK(o) && glyphNameUsed != nil && fresh(glyphNameUsed) && namesUsed(o, glyphNameUsed, iter) && namesDistinct(o, iter)
+//@     invariant o.Glyphs[0].Name == ".notdef" && (iter == 0 ==> !has(glyphNameUsed, ".notdef") || !glyphNameUsed[".notdef"])
+//@   loop 1
+//@     invariant glyphsOK(o) && glyphNameUsed != nil && fresh(glyphNameUsed) && namesUsed(o, glyphNameUsed, len(o.Glyphs)) && namesDistinct(o, len(o.Glyphs)) && o.Glyphs[0].Name == ".notdef"
+//@   loop 2
+//@     invariant glyphsOK(o) && glyphNameUsed != nil && fresh(glyphNameUsed) && namesUsed(o, glyphNameUsed, len(o.Glyphs)) && namesDistinct(o, len(o.Glyphs)) && o.Glyphs[0].Name == ".notdef"
+//@     invariant g == o.Glyphs[gid] && g.Name == "" && 0 <= gid && gid < len(o.Glyphs)
+//@     decreases *
+//@   loop 3
+//@     invariant glyphsOK(o) && glyphNameUsed != nil && fresh(glyphNameUsed) && namesUsed(o, glyphNameUsed, len(o.Glyphs)) && namesDistinct(o, len(o.Glyphs)) && o.Glyphs[0].Name == ".notdef"
+//@     invariant forall i int :: 0 <= i && i < iter ==> o.Glyphs[i].Name != ""
+//@   loop 4
+//@     invariant glyphsOK(o) && glyphNameUsed != nil && fresh(glyphNameUsed) && namesUsed(o, glyphNameUsed, len(o.Glyphs)) && namesDistinct(o, len(o.Glyphs)) && o.Glyphs[0].Name == ".notdef"
+//@     invariant forall i int :: 0 <= i && i < rangeindex ==> o.Glyphs[i].Name != ""
+//@     invariant g == o.Glyphs[rangeindex] && g.Name == "" && 0 <= rangeindex && rangeindex < len(o.Glyphs)
+//@     decreases *
